@@ -27,6 +27,7 @@ import PV.Driver.DispatchOps
 import PV.Driver.CseTableOps
 import PV.Driver.ParserTableOps
 import PV.Driver.CodegenOps
+import PV.Driver.AlgoTableOps
 /-
   Driver operations: one request S-expression in, one reply S-expression out.
 -/
@@ -226,6 +227,7 @@ def handlers : List (Sexp → Option Sexp) :=
    , handleCseTable
    , handleParserTable
    , handleCodegen
+   , handleC19Table
    -- HANDLERS
   ]
 
